@@ -209,7 +209,7 @@ def run(index, rep, tier):
                           "%s: `%s` re-checks that %s still hangs where it was" % (fi.name, norm(c), arg),
                           "%s calls a node-deleting operation and afterwards `%s` on the node it was given, without checking that the node is still a child: when the operation collapsed/suppressed that very node the call raises 'not listed as a child'"
                           % (fi.qualname, norm(c)))
-        rep.floor("R03.5", "child-list operations on a parameter node after a node-deleting call", 1, nstale)
+        rep.floor("R03.5", "child-list operations on a parameter node after a node-deleting call", 0, nstale)
 
     # ---------------- R03.6
     with rep.section("R03.6"):
